@@ -2926,7 +2926,7 @@ namespace awkward {
   bool
   IndexedArrayOf<T, ISOPTION>::is_unique() const {
     Index64 start(1);
-    start.setitem_at_nowrap(0, index().offset());
+    start.setitem_at_nowrap(0, 0);
     Index64 stop(1);
     stop.setitem_at_nowrap(0, index().length());
     return is_subrange_equal(start, stop);
